@@ -403,14 +403,21 @@ Proof.
   intros Hx. apply andb_prop in Hx as [H1 H2]. now rewrite (H _ H1), (IH H2).
 Qed.
 
+Lemma before_nc relaxed c : ows_before relaxed c = true -> negb (c =? 44) = true.
+Proof. unfold ows_before; destruct relaxed; lia. Qed.
+Lemma after_nc relaxed c : ows_after relaxed c = true -> negb (c =? 44) = true.
+Proof. unfold ows_after; destruct relaxed; lia. Qed.
+Lemma digit_nc c : c_isdigit c = true -> negb (c =? 44) = true.
+Proof. unfold c_isdigit; lia. Qed.
+
 Lemma token_no_comma relaxed f v : is_token relaxed f v -> has_comma f = false.
 Proof.
   intros (w & ds & t & -> & Hw & _ & Hd & Ht & _).
   assert (H : forallb (fun c => negb (c =? 44)) (w ++ ds ++ t) = true).
   { rewrite !forallb_app'.
-    rewrite (forallb_imp _ _ w (fun c => ltac:(unfold ows_before; destruct relaxed; lia)) Hw).
-    rewrite (forallb_imp _ _ ds (fun c => ltac:(unfold c_isdigit; lia)) Hd).
-    rewrite (forallb_imp _ _ t (fun c => ltac:(unfold ows_after; destruct relaxed; lia)) Ht). reflexivity. }
+    rewrite (forallb_imp _ _ w (before_nc relaxed) Hw).
+    rewrite (forallb_imp _ _ ds digit_nc Hd).
+    rewrite (forallb_imp _ _ t (after_nc relaxed) Ht). reflexivity. }
   unfold has_comma. induction (w ++ ds ++ t) as [|c l IH]; cbn [c_str existsb]; [reflexivity|].
   cbn [forallb] in H. apply andb_prop in H as [Hc Hl].
   destruct (c =? 0); cbn [existsb]; [reflexivity|]. rewrite (IH Hl).
@@ -487,4 +494,312 @@ Proof.
   destruct (cl_sawGood (snd (check_fields relaxed cl_init vs))) eqn:Hg.
   - exfalso. apply (Hno (cl_value (snd (check_fields relaxed cl_init vs)))). repeat split; assumption.
   - exfalso. apply Hne. now apply not_flagged_not_used_means_nothing.
+Qed.
+
+(* ================= xint64toa / getInt64 round trip ================= *)
+Lemma dec_val_snoc ds d : dec_val (ds ++ [d]) = (dec_val ds * 10 + (Z.of_N d - 48))%Z.
+Proof. unfold dec_val. rewrite fold_left_app. reflexivity. Qed.
+
+Lemma dec_digits_S k n :
+  dec_digits (S k) n = if n <? 10 then [48 + n] else dec_digits k (n / 10) ++ [48 + n mod 10].
+Proof. reflexivity. Qed.
+
+Lemma dec_digits_spec : forall fuel n, n < 10 ^ N.of_nat (S fuel) ->
+  dec_val (dec_digits (S fuel) n) = Z.of_N n /\ forallb c_isdigit (dec_digits (S fuel) n) = true /\
+  dec_digits (S fuel) n <> [].
+Proof.
+  induction fuel as [|k IH]; intros n Hn; rewrite dec_digits_S; destruct (n <? 10) eqn:E.
+  - repeat split; [unfold dec_val; cbn [fold_left]; lia| cbn [forallb]; unfold c_isdigit; lia| discriminate].
+  - change (10 ^ N.of_nat 1) with 10 in Hn. lia.
+  - repeat split; [unfold dec_val; cbn [fold_left]; lia| cbn [forallb]; unfold c_isdigit; lia| discriminate].
+  - assert (Hk : n / 10 < 10 ^ N.of_nat (S k)).
+    { rewrite (Nat2N.inj_succ (S k)), N.pow_succ_r' in Hn. apply N.div_lt_upper_bound; lia. }
+    destruct (IH _ Hk) as (Hv & Hd & Hne). repeat split.
+    + rewrite dec_val_snoc, Hv. pose proof (N.div_mod n 10). lia.
+    + rewrite forallb_app', Hd. cbn [forallb]. unfold c_isdigit. pose proof (N.mod_lt n 10). lia.
+    + intros H. apply app_eq_nil in H as [_ H]. discriminate.
+Qed.
+
+Lemma span_all_digits l : forallb c_isdigit l = true -> span c_isdigit l = (l, []).
+Proof. intros H. rewrite <- (app_nil_r l) at 1. now apply span_app_stop. Qed.
+
+Lemma parse_int64_to_a v : (0 <= v < two63)%Z -> exists n, parse_offset (int64_to_a v) = Some (v, n).
+Proof.
+  intros Hv. unfold int64_to_a.
+  assert (Hn : Z.to_N v < 10 ^ N.of_nat 20) by (unfold two63 in Hv; change (10 ^ N.of_nat 20) with 100000000000000000000; lia).
+  destruct (dec_digits_spec 19 _ Hn) as (Hval & Hd & Hne).
+  destruct (dec_digits 20 (Z.to_N v)) as [|c r] eqn:E; [contradiction|].
+  pose proof Hd as Hd0. cbn [forallb] in Hd. apply andb_prop in Hd as [Hc _].
+  rewrite (parse_offset_digit_led c r Hc). cbv zeta. rewrite (span_all_digits _ Hd0). cbn [fst].
+  rewrite Hval, Z2N.id by lia. destruct (v >? two63 - 1)%Z eqn:Eb; [lia|]. eauto.
+Qed.
+
+(* getInt64 on a kept single-token field: strtoll skips the same leading white space *)
+Lemma skip_ws_app w : forall l n, forallb c_isspace w = true ->
+  skip_ws (w ++ l) n = skip_ws l (n + lenN w).
+Proof.
+  induction w as [|x w IH]; intros l n H; cbn [app lenN]; [f_equal; lia|].
+  cbn [forallb] in H. apply andb_prop in H as [Hx Hw]. cbn [skip_ws]. rewrite Hx, (IH _ _ Hw). f_equal. lia.
+Qed.
+
+Lemma skip_ws_shift m : forall l n l1 n1, skip_ws l n = (l1, n1) -> skip_ws l (n + m) = (l1, n1 + m).
+Proof.
+  induction l as [|x l IH]; intros n l1 n1; cbn [skip_ws].
+  - intros [= <- <-]. reflexivity.
+  - destruct (c_isspace x); [|intros [= <- <-]; reflexivity].
+    intros H. specialize (IH _ _ _ H). rewrite <- IH. f_equal. lia.
+Qed.
+
+Lemma c_str_app_nonul a b : forallb (fun c => negb (c =? 0)) a = true -> c_str (a ++ b) = a ++ c_str b.
+Proof.
+  induction a as [|x a IH]; cbn [app forallb]; [reflexivity|]. intros H. apply andb_prop in H as [Hx Ha].
+  cbn [c_str]. destruct (x =? 0); [discriminate|]. now rewrite (IH Ha).
+Qed.
+
+Lemma before_space relaxed c : ows_before relaxed c = true -> c_isspace c = true.
+Proof. unfold ows_before, c_isspace; destruct relaxed; lia. Qed.
+Lemma before_nonul relaxed c : ows_before relaxed c = true -> negb (c =? 0) = true.
+Proof. unfold ows_before; destruct relaxed; lia. Qed.
+
+Lemma token_parse_offset relaxed f v : is_token relaxed f v -> exists n, parse_offset f = Some (v, n).
+Proof.
+  intros (w & ds & t & -> & Hw & Hne & Hd & Ht & <- & Hlt).
+  destruct ds as [|c ds']; [contradiction|].
+  pose proof Hd as Hd0. cbn [forallb] in Hd. apply andb_prop in Hd as [Hc Hd'].
+  assert (Hsp : span c_isdigit ((c :: ds') ++ t) = (c :: ds', t)).
+  { apply span_app_stop; [exact Hd0|]. destruct t as [|y t']; [exact I|].
+    cbn [forallb] in Ht. apply andb_prop in Ht as [Hy _]. exact (delim_not_digit _ _ Hy). }
+  pose proof (parse_offset_digit_led c (ds' ++ t) Hc) as Hp. cbv zeta in Hp.
+  change (c :: ds' ++ t) with ((c :: ds') ++ t) in Hp. rewrite Hsp in Hp. cbn [fst] in Hp.
+  destruct (dec_val (c :: ds') >? two63 - 1)%Z eqn:Eb; [lia|].
+  (* the same computation behind the skipped white space *)
+  unfold parse_offset, c_strtoll in *.
+  rewrite (c_str_app_nonul w _ (forallb_imp _ _ w (before_nonul relaxed) Hw)).
+  rewrite (skip_ws_app w _ 0 (forallb_imp _ _ w (before_space relaxed) Hw)).
+  destruct (skip_ws (c_str ((c :: ds') ++ t)) 0) as [l1 n1] eqn:E1.
+  assert (E2 : skip_ws (c_str ((c :: ds') ++ t)) (0 + lenN w) = (l1, n1 + lenN w)).
+  { now apply skip_ws_shift. }
+  rewrite E2.
+  destruct l1 as [|a l1'].
+  - cbn [span fst] in Hp. discriminate.
+  - destruct (a =? 45); [| destruct (a =? 43)];
+      (destruct (fst (span c_isdigit _)) as [|y ys] eqn:Es; [discriminate|]);
+      repeat match type of Hp with context [if ?b then _ else _] => destruct b eqn:?; try discriminate end;
+      repeat match goal with |- context [if ?b then _ else _] => destruct b eqn:?; try discriminate end;
+      try lia; inversion Hp; subst; eauto.
+Qed.
+
+(* ================= HttpHeader::parse: the Content-Length branches ================= *)
+Definition is_cl (e : entry) : bool := hid_eqb (e_id e) HCL.
+Definition cl_values (es : list entry) : list bytes := map e_value (filter is_cl es).
+
+Lemma check_items_mono relaxed : forall items st, cl_sawGood st = true ->
+  cl_sawGood (check_items relaxed st items) = true /\ cl_value (check_items relaxed st items) = cl_value st.
+Proof.
+  induction items as [|raw more IH]; intros st Hg; cbn [check_items]; [now split|].
+  destruct (rtrim raw) as [|x xs]; [now split|].
+  rewrite check_value_unfold, Hg. destruct (cv_parse relaxed (x :: xs)) as [v|].
+  - destruct (negb false && cl_sawBad (cv_dup relaxed st v)); [now split|].
+    destruct (IH (cv_dup relaxed st v) eq_refl) as [H1 H2]. now split.
+  - cbn [negb andb set_bad cl_sawBad]. now split.
+Qed.
+
+Lemma check_field_mono relaxed st f : cl_sawGood st = true ->
+  fst (check_field relaxed st f) = false /\
+  cl_sawGood (snd (check_field relaxed st f)) = true /\ cl_value (snd (check_field relaxed st f)) = cl_value st.
+Proof.
+  intros Hg. unfold check_field. destruct (cl_sawBad st); [now repeat split|].
+  destruct (has_comma f).
+  - unfold check_list. destruct relaxed; cbn [negb fst snd]; [|now repeat split].
+    destruct (check_items_mono true (split_items Lead [] (c_str f)) (set_san st) Hg) as [H1 H2]. now repeat split.
+  - rewrite check_value_unfold, Hg. destruct (cv_parse relaxed f); now repeat split.
+Qed.
+
+Lemma check_field_keep relaxed st f st1 : check_field relaxed st f = (true, st1) ->
+  cl_sawGood st = false /\ exists v, cv_parse relaxed f = Some v /\ st1 = cv_first st v.
+Proof.
+  unfold check_field. destruct (cl_sawBad st); [discriminate|]. destruct (has_comma f).
+  - unfold check_list. destruct (negb relaxed); discriminate.
+  - rewrite check_value_unfold. destruct (cv_parse relaxed f) as [v|]; [|discriminate].
+    destruct (cl_sawGood st); [discriminate|]. intros [= <-]. eauto.
+Qed.
+
+Lemma entries_loop_fields relaxed : forall es st kept st',
+  entries_loop relaxed es st = Some (kept, st') -> st' = snd (check_fields relaxed st (cl_values es)).
+Proof.
+  induction es as [|e es IH]; intros st kept st'; cbn [entries_loop].
+  - intros [= <- <-]. reflexivity.
+  - unfold cl_values, is_cl. cbn [filter]. destruct (e_id e) eqn:Ei; cbn [hid_eqb map check_fields].
+    + fold is_cl. change (map e_value (filter is_cl es)) with (cl_values es).
+      destruct (check_field relaxed st (e_value e)) as [k st1].
+      destruct (check_fields relaxed st1 (cl_values es)) as [ks st2] eqn:E2. cbn [snd].
+      assert (G : forall kept, entries_loop relaxed es st1 = Some (kept, st') -> st' = st2).
+      { intros k' H. rewrite (IH _ _ _ H), E2. reflexivity. }
+      destruct k.
+      * destruct (entries_loop relaxed es st1) as [[k' s']|] eqn:E; [|discriminate].
+        intros [= <- <-]. now apply (G k').
+      * destruct relaxed; [|discriminate]. apply G.
+    + destruct (entries_loop relaxed es st) as [[k' s']|] eqn:E; [|discriminate].
+      intros [= <- <-]. now apply (IH _ _ _ E).
+    + destruct (entries_loop relaxed es st) as [[k' s']|] eqn:E; [|discriminate].
+      intros [= <- <-]. now apply (IH _ _ _ E).
+Qed.
+
+Lemma entries_loop_te relaxed : forall es st kept st',
+  entries_loop relaxed es st = Some (kept, st') -> has_id HTE kept = has_id HTE es.
+Proof.
+  induction es as [|e es IH]; intros st kept st'; cbn [entries_loop].
+  - intros [= <- <-]. reflexivity.
+  - unfold has_id. cbn [existsb]. fold (has_id HTE es). destruct (e_id e) eqn:Ei; cbn [hid_eqb orb].
+    + destruct (check_field relaxed st (e_value e)) as [k st1]. destruct k.
+      * destruct (entries_loop relaxed es st1) as [[k' s']|] eqn:E; [|discriminate].
+        intros [= <- <-]. cbn [existsb]. rewrite Ei. cbn [hid_eqb orb]. now apply (IH _ _ _ E).
+      * destruct relaxed; [|discriminate]. apply IH.
+    + destruct (entries_loop relaxed es st) as [[k' s']|] eqn:E; [|discriminate].
+      intros [= <- <-]. cbn [existsb]. now rewrite Ei.
+    + destruct (entries_loop relaxed es st) as [[k' s']|] eqn:E; [|discriminate].
+      intros [= <- <-]. cbn [existsb]. rewrite Ei. cbn [hid_eqb orb]. now apply (IH _ _ _ E).
+Qed.
+
+Lemma kept_after_good relaxed : forall es st kept st', cl_sawGood st = true ->
+  entries_loop relaxed es st = Some (kept, st') ->
+  filter is_cl kept = [] /\ cl_sawGood st' = true /\ cl_value st' = cl_value st.
+Proof.
+  induction es as [|e es IH]; intros st kept st' Hg; cbn [entries_loop].
+  - intros [= <- <-]. now repeat split.
+  - destruct (e_id e) eqn:Ei.
+    + destruct (check_field_mono relaxed st (e_value e) Hg) as (Hk & Hg1 & Hv1).
+      destruct (check_field relaxed st (e_value e)) as [k st1]. cbn [fst snd] in *. subst k.
+      destruct relaxed; [|discriminate]. intros H. destruct (IH _ _ _ Hg1 H) as (A & B & C).
+      repeat split; [exact A| exact B| congruence].
+    + destruct (entries_loop relaxed es st) as [[k' s']|] eqn:E; [|discriminate].
+      intros [= <- <-]. destruct (IH _ _ _ Hg E) as (A & B & C). cbn [filter]. unfold is_cl at 1.
+      rewrite Ei. cbn [hid_eqb]. now repeat split.
+    + destruct (entries_loop relaxed es st) as [[k' s']|] eqn:E; [|discriminate].
+      intros [= <- <-]. destruct (IH _ _ _ Hg E) as (A & B & C). cbn [filter]. unfold is_cl at 1.
+      rewrite Ei. cbn [hid_eqb]. now repeat split.
+Qed.
+
+Lemma kept_cl relaxed : forall es st kept st', cl_sawGood st = false ->
+  entries_loop relaxed es st = Some (kept, st') ->
+  filter is_cl kept = [] \/
+  exists e, filter is_cl kept = [e] /\ cv_parse relaxed (e_value e) = Some (cl_value st') /\ cl_sawGood st' = true.
+Proof.
+  induction es as [|e es IH]; intros st kept st' Hg; cbn [entries_loop].
+  - intros [= <- <-]. now left.
+  - destruct (e_id e) eqn:Ei.
+    + destruct (check_field relaxed st (e_value e)) as [k st1] eqn:Ec. destruct k.
+      * destruct (check_field_keep _ _ _ _ Ec) as (_ & v & Hv & ->).
+        destruct (entries_loop relaxed es (cv_first st v)) as [[k' s']|] eqn:E; [|discriminate].
+        intros [= <- <-]. destruct (kept_after_good relaxed es (cv_first st v) _ _ eq_refl E) as (A & B & C).
+        right. exists e. cbn [filter]. unfold is_cl at 1. rewrite Ei. cbn [hid_eqb]. rewrite A.
+        repeat split; [|exact B]. rewrite C. exact Hv.
+      * destruct relaxed; [|discriminate]. intros H.
+        destruct (cl_sawGood st1) eqn:Eg1.
+        -- left. exact (proj1 (kept_after_good true es _ _ _ Eg1 H)).
+        -- exact (IH _ _ _ Eg1 H).
+    + destruct (entries_loop relaxed es st) as [[k' s']|] eqn:E; [|discriminate].
+      intros [= <- <-]. cbn [filter]. assert (Hn : is_cl e = false) by (unfold is_cl; now rewrite Ei). rewrite Hn. exact (IH _ _ _ Hg E).
+    + destruct (entries_loop relaxed es st) as [[k' s']|] eqn:E; [|discriminate].
+      intros [= <- <-]. cbn [filter]. assert (Hn : is_cl e = false) by (unfold is_cl; now rewrite Ei). rewrite Hn. exact (IH _ _ _ Hg E).
+Qed.
+
+Lemma filter_cl_del l : filter is_cl (del_id HCL l) = [].
+Proof.
+  unfold del_id, is_cl. induction l as [|e l IH]; cbn [filter]; [reflexivity|].
+  destruct (hid_eqb (e_id e) HCL) eqn:E; cbn [negb filter]; [exact IH| now rewrite E].
+Qed.
+Lemma filter_cl_del_te l : filter is_cl (del_id HTE l) = filter is_cl l.
+Proof.
+  unfold del_id, is_cl. induction l as [|e l IH]; cbn [filter]; [reflexivity|].
+  destruct (e_id e) eqn:Ei; cbn [hid_eqb negb filter]; rewrite ?Ei; cbn [hid_eqb]; now rewrite IH.
+Qed.
+Lemma first_cl_filter l : first_cl l = match filter is_cl l with e :: _ => Some (e_value e) | [] => None end.
+Proof. reflexivity. Qed.
+
+Lemma occ_some relaxed f v : In (Some v) (field_occ relaxed f) -> exists it, cv_parse relaxed it = Some v.
+Proof.
+  unfold field_occ. destruct (has_comma f).
+  - destruct relaxed.
+    + intros H. apply in_map_iff in H as (it & H & _). eauto.
+    + intros [H|[]]. discriminate.
+  - intros [H|[]]. eauto.
+Qed.
+
+Lemma used_in_range relaxed vs v :
+  uses (snd (check_fields relaxed cl_init vs)) v -> (0 <= v < two63)%Z.
+Proof.
+  intros H. destruct (used_value_is_every_examined _ _ _ H) as [Hne Hall].
+  destruct (concat (map (field_occ relaxed) vs)) as [|o os] eqn:E; [contradiction|].
+  assert (Ho : o = Some v) by (apply Hall; now left).
+  assert (Hin : In (Some v) (concat (map (field_occ relaxed) vs))) by (rewrite E, Ho; now left).
+  apply in_concat in Hin as (l & Hl & Hv). apply in_map_iff in Hl as (f & <- & _).
+  destruct (occ_some _ _ _ Hv) as (it & Hit). apply cv_parse_token in Hit.
+  destruct Hit as (w & ds & t & _ & _ & _ & Hd & _ & <- & Hlt). split; [now apply dec_val_nonneg| exact Hlt].
+Qed.
+
+(* soundness at the level callers see: a framing length is reported only when the interpreter uses it,
+   there is no Transfer-Encoding, the message does not prohibit Content-Length, nothing is flagged *)
+Theorem header_length_sound relaxed proh es r :
+  parse_entries relaxed proh es = Some r -> content_length r <> (-1)%Z ->
+  proh = false /\ has_id HTE es = false /\ h_conflicting r = false /\
+  uses (snd (check_fields relaxed cl_init (cl_values es))) (content_length r).
+Proof.
+  unfold parse_entries. destruct (entries_loop relaxed es cl_init) as [[kept st]|] eqn:E; [|discriminate].
+  intros [= <-]. pose proof (entries_loop_fields _ _ _ _ _ E) as Hst.
+  pose proof (entries_loop_te _ _ _ _ _ E) as Hte. rewrite <- Hst.
+  unfold post_process, content_length. destruct proh.
+  - cbn [h_entries]. rewrite first_cl_filter, filter_cl_del_te, filter_cl_del. congruence.
+  - rewrite Hte. destruct (has_id HTE es).
+    + cbn [h_entries]. rewrite first_cl_filter, filter_cl_del. congruence.
+    + destruct (cl_sawBad st) eqn:Hb.
+      * cbn [h_entries]. rewrite first_cl_filter, filter_cl_del. congruence.
+      * destruct (cl_needsSan st) eqn:Hs.
+        -- cbn [h_entries h_conflicting]. rewrite first_cl_filter, filter_app, filter_cl_del. cbn [app].
+           destruct (cl_sawGood st) eqn:Hg; cbn [filter]; [|congruence].
+           unfold is_cl. cbn [e_id hid_eqb e_value].
+           assert (Hu : uses st (cl_value st)) by (repeat split; assumption).
+           assert (Hr : (0 <= cl_value st < two63)%Z) by (apply (used_in_range relaxed (cl_values es)); rewrite <- Hst; exact Hu).
+           destruct (parse_int64_to_a _ Hr) as (n & ->). intros _. repeat split; assumption.
+        -- cbn [h_entries h_conflicting]. rewrite first_cl_filter.
+           destruct (kept_cl relaxed es cl_init kept st eq_refl E) as [->|(e & -> & Hv & Hg)]; [congruence|].
+           apply cv_parse_token in Hv. destruct (token_parse_offset _ _ _ Hv) as (n & ->).
+           intros _. repeat split; assumption.
+Qed.
+
+(* the "otherwise" half: without Transfer-Encoding / prohibition, when the interpreter uses no value,
+   callers see no length, and the header is flagged unless no occurrence was examined at all *)
+Theorem header_unusable_flagged relaxed es r :
+  parse_entries relaxed false es = Some r -> has_id HTE es = false ->
+  (forall v, ~ uses (snd (check_fields relaxed cl_init (cl_values es))) v) ->
+  content_length r = (-1)%Z /\
+  (h_conflicting r = true \/ concat (map (field_occ relaxed) (cl_values es)) = []).
+Proof.
+  unfold parse_entries. destruct (entries_loop relaxed es cl_init) as [[kept st]|] eqn:E; [|discriminate].
+  intros [= <-] Hnte Hno. pose proof (entries_loop_fields _ _ _ _ _ E) as Hst.
+  pose proof (entries_loop_te _ _ _ _ _ E) as Hte. rewrite <- Hst in Hno.
+  unfold post_process, content_length. rewrite Hte, Hnte.
+  destruct (cl_sawBad st) eqn:Hb.
+  - cbn [h_entries h_conflicting]. rewrite first_cl_filter, filter_cl_del. split; [reflexivity| now left].
+  - assert (Hg : cl_sawGood st = false).
+    { destruct (cl_sawGood st) eqn:Hg; [|reflexivity]. exfalso. apply (Hno (cl_value st)). now repeat split. }
+    assert (Hnone : concat (map (field_occ relaxed) (cl_values es)) = []).
+    { apply not_flagged_not_used_means_nothing; rewrite <- Hst; assumption. }
+    destruct (cl_needsSan st).
+    + cbn [h_entries h_conflicting]. rewrite Hg, app_nil_r, first_cl_filter, filter_cl_del. now split; [|right].
+    + cbn [h_entries h_conflicting]. rewrite first_cl_filter.
+      destruct (kept_cl relaxed es cl_init kept st eq_refl E) as [->|(e & _ & _ & Hg')]; [now split; [|right]| congruence].
+Qed.
+
+(* Transfer-Encoding present, or Content-Length prohibited: Content-Length is never used *)
+Theorem header_te_or_prohibited relaxed proh es r :
+  parse_entries relaxed proh es = Some r -> proh = true \/ has_id HTE es = true ->
+  content_length r = (-1)%Z /\ first_cl (h_entries r) = None.
+Proof.
+  unfold parse_entries. destruct (entries_loop relaxed es cl_init) as [[kept st]|] eqn:E; [|discriminate].
+  intros [= <-] H. pose proof (entries_loop_te _ _ _ _ _ E) as Hte.
+  unfold post_process, content_length. destruct proh.
+  - cbn [h_entries]. rewrite first_cl_filter, filter_cl_del_te, filter_cl_del. now split.
+  - destruct H as [H|H]; [discriminate|]. rewrite Hte, H. cbn [h_entries].
+    rewrite first_cl_filter, filter_cl_del. now split.
 Qed.
